@@ -42,7 +42,9 @@ RULE = (
     "select_by_key (absent / hit / miss), index, separator, empty_label, label_fn, label_mapping (absent / partial hit / "
     "miss), value_only (omitted / True / False), directly and through the 5 export entry points, plus label_from_tag "
     "with the key separator; export: every pooled geometry x cast x raise_on_time_geometries x samplerate (each "
-    "option also omitted) and every list of 0..n kinds x ignore_errors; roundtrip: export(import(x)) at expansion 1 "
+    "option also omitted) and every list of 0..n kinds x ignore_errors; export_decimal: every interval [k/den, (k+1)/den] of "
+    "each non-dyadic family (den = 100, 1000, 44100, 22050, ...) x samplerate through segment / sequence / annotation[seq] "
+    "export (non-trivial when some time x samplerate is not an integer in double arithmetic); roundtrip: export(import(x)) at expansion 1 "
     "with value_only labels. Non-trivial: import with expansion != 1 or sample units; cascade / label with a "
     "non-empty label or tag list and >= 2 options given; export whose geometry is not already of the target type or "
     "is unconvertible; roundtrip with >= 2 elements. distinct = distinct case descriptor."
@@ -63,6 +65,12 @@ ASSUMPTIONS = [
     "sample indices is judged only when index / samplerate is a float",
     "segments given in seconds for onset and in samples for offset (only constructible by bypassing Segment.from_keyword) are not enumerated",
     "labels are plain strings; error class for 'rejected': any ValueError subclass; any exception on an import input is a violation",
+    "export_decimal (times k/100, k/1000, k/44100, k/22050, ... that are not dyadic): the property says floor(time x samplerate); "
+    "a sample index is judged only when the exact rational floor(Fraction(time) * samplerate) equals the floor of the double "
+    "product time * samplerate (the real-number answer and the correctly rounded double answer agree), otherwise it is counted "
+    "vacuous; when judged the exported index must equal that value exactly. onset_s / offset_s must equal the given doubles exactly. "
+    "The bbox exporter emits no sample indices (crowsetta.BBox has none), so this sub-space goes through the segment / sequence / "
+    "annotation[seq] exporters only, with TimeInterval geometries and BoundingBox geometries cast to segments",
 ]
 
 DEFAULT = "<omitted>"
@@ -78,6 +86,8 @@ def P(tier):
             "labels": ["a", "__empty__", "b"],
             "export_times": [0, 0.125, 0.1875, 1, 2.5], "export_freqs": [0, 125, 1000], "export_srs": [8, 8000, 44100],
             "export_maxlen": 3, "indices": [None, -1, 0, 1, 2, 5, 4, -4],
+            "decimal_families": [[100, 300], [1000, 1000], [44100, 400], [22050, 400]],
+            "decimal_srs": [100, 1000, 8000, 22050, 44100],
         }
     return {
         "times": [0, 0.125, 0.5, 1, 2.5, 4], "freqs": [0, 125, 1000, 4000, 30000], "srs": [8, 8000, 44100, 96000],
@@ -87,6 +97,8 @@ def P(tier):
         "labels": ["a", "__empty__", "b", "", "x", "other"],
         "export_times": [0, 0.125, 0.1875, 0.5, 1, 2.5, 4], "export_freqs": [0, 125, 1000, 5000], "export_srs": [8, 8000, 44100, 96000],
         "export_maxlen": 4, "indices": [None, -1, 0, 1, 2, 5, 4, -4, 3, 7, -7],
+        "decimal_families": [[100, 1000], [1000, 5000], [44100, 3000], [22050, 3000], [48000, 3000], [10, 100], [3, 300]],
+        "decimal_srs": [100, 1000, 8000, 22050, 44100, 48000, 96000, 192000],
     }
 
 
@@ -885,6 +897,65 @@ def gen_export_list(p):
                                    "ignore": ignore, "raise_t": raise_t, "sr": sr}
 
 
+# =========================================================================== EXPORT, non-dyadic times
+DECIMAL_FN = ["segment", "sequence", "annotation_seq"]
+
+
+def run_export_decimal(case):
+    """Intervals [k0/den, k1/den] (doubles k/den) exported through the exporters that emit sample indices."""
+    out = Out(case)
+    fn, geom, sr, den, ks = case["fn"], case["geom"], case["sr"], case["den"], case["ks"]
+    rec = mkrec(sr)
+    ivs = [(k0 / den, k1 / den) for k0, k1 in ks]
+    events = []
+    for i, (t0, t1) in enumerate(ivs):
+        coords = [t0, t1] if geom == "TimeInterval" else [t0, 0.0, t1, 1000.0]
+        events.append(mk_event(rec, geom, coords, [xreal(("pos", str(i)))]))
+    r = export_call(fn, events, {})
+    cls = {"fn": EXPORT_FN[fn], "kind": geom, "why": "decimal_time"}
+    out.transitions = 1
+    judged = vac = 0
+    fractional = False
+    if out.expect("export_decision", r[0] == "ok" and len(r[1]) == len(ivs), [r[0], r[1] if r[0] != "ok" else len(r[1])],
+                  ["ok", len(ivs)], cls):
+        got = [e.label for e in r[1]]
+        want = ["pos:%d" % i for i in range(len(ivs))]
+        out.expect("export_order", got == want, got, want, cls)
+        for i, (seg, (t0, t1)) in enumerate(zip(r[1], ivs)):
+            f = seg_fields(seg)
+            out.expect("export_times", type(f[0]) is float and type(f[1]) is float and F(f[0]) == F(t0) and F(f[1]) == F(t1),
+                       f[:2], [t0, t1], cls, {"index": i})
+            for which, t, s in (("onset", t0, f[2]), ("offset", t1, f[3])):
+                ok, idx = cm.sample_index_decided(t, sr)
+                if (t * sr) != int(t * sr):
+                    fractional = True
+                if not ok:
+                    out.vac("export_sample_index")
+                    vac += 1
+                    continue
+                judged += 1
+                out.expect("export_sample_index", type(s) is int and s == idx, s, idx, cls,
+                           {"index": i, "which": which, "time": repr(t), "samplerate": sr, "double_product": repr(t * sr)})
+    out.validated = judged
+    out.nontrivial = fractional
+    out.klass = "export_decimal:%s:%s:%s" % (fn, geom, "all_judged" if vac == 0 else ("some_unjudged" if judged else "none_judged"))
+    return out
+
+
+def gen_export_decimal(p):
+    for den, kmax in p["decimal_families"]:
+        for sr in p["decimal_srs"]:
+            # every k/den is the onset of one interval and the offset of the previous one
+            for k in range(0, kmax):
+                geom = "TimeInterval" if k % 2 == 0 else "BoundingBox"
+                yield {"space": "export_decimal", "fn": "segment", "geom": geom, "sr": sr, "den": den, "ks": [[k, k + 1]]}
+            for fn in ("sequence", "annotation_seq"):
+                for k in range(0, kmax - 2, 3):
+                    geom = "TimeInterval" if (k // 3) % 2 == 0 else "BoundingBox"
+                    yield {"space": "export_decimal", "fn": fn, "geom": geom, "sr": sr, "den": den,
+                           "ks": [[k, k + 1], [k + 1, k + 2], [k + 2, k + 3]]}
+
+
 # =========================================================================== ROUNDTRIP
 RT_LABELS = ["a", "__empty__", "b", "c"]
 
@@ -969,10 +1040,12 @@ PLAN = {
     "quick": [
         ("import_single", 1), ("import_seq", 6), ("import_ann_seq", 6), ("import_ann_bbox", 32),
         ("cascade", 4), ("label", 8), ("label_tag", 1), ("export", 2), ("export_list", 16), ("roundtrip", 6),
+        ("export_decimal", 2),
     ],
     "thorough": [
         ("import_single", 1), ("import_seq", 16), ("import_ann_seq", 16), ("import_ann_bbox", 40),
-        ("cascade", 4), ("label", 6), ("label_tag", 1), ("export", 4), ("export_list", 28), ("roundtrip", 12),
+        ("cascade", 4), ("label", 6), ("label_tag", 1), ("export", 4), ("export_list", 26), ("roundtrip", 10),
+        ("export_decimal", 4),
     ],
 }
 
@@ -982,7 +1055,7 @@ def gen_cases(space, tier):
     if space.startswith("import"):
         return gen_import(space, p)
     return {"cascade": gen_cascade, "label": gen_label, "label_tag": gen_label_tag, "export": gen_export,
-            "export_list": gen_export_list, "roundtrip": gen_roundtrip}[space](p)
+            "export_list": gen_export_list, "roundtrip": gen_roundtrip, "export_decimal": gen_export_decimal}[space](p)
 
 
 def blocks(tier):
@@ -996,6 +1069,7 @@ def blocks(tier):
 RUNNERS = {
     "import": run_import, "cascade": run_cascade, "label": run_label, "label_tag": run_label_tag,
     "export": run_export, "export_list": run_export_list, "roundtrip": run_roundtrip,
+    "export_decimal": run_export_decimal,
 }
 
 
